@@ -17,7 +17,7 @@ VERIF = os.path.dirname(os.path.dirname(os.path.abspath(__file__)))
 def main():
     src = sys.argv[1]
     rows = []
-    for res in sorted(glob.glob(os.path.join(src, "C??-M?.json")) + glob.glob(os.path.join(src, "R2-C??-M?.json")) + glob.glob(os.path.join(src, "R3-C??-M?.json")) + glob.glob(os.path.join(src, "R4-?-M?.json")) + glob.glob(os.path.join(src, "R5-?-M?.json"))):
+    for res in sorted(glob.glob(os.path.join(src, "C??-M?.json")) + glob.glob(os.path.join(src, "R2-C??-M?.json")) + glob.glob(os.path.join(src, "R3-C??-M?.json")) + glob.glob(os.path.join(src, "R4-?-M?.json")) + glob.glob(os.path.join(src, "R5-?-M?.json")) + glob.glob(os.path.join(src, "R6-?-M?.json"))):
         name = os.path.basename(res)[:-5]
         wt, k = name.rsplit("-M", 1)
         prop = wt[-3:]
@@ -49,6 +49,10 @@ def main():
                 shutil.copy(os.path.join(d, f), os.path.join(out, f))
         notes = open(os.path.join(d, "notes.md")).read() if os.path.exists(os.path.join(d, "notes.md")) else ""
         first = next((ln.strip("# ").strip() for ln in notes.splitlines() if ln.strip()), "")
+        if name.startswith("R6-"):
+            pairs = {"A": ("C01", "C07"), "B": ("C02", "C14"), "C": ("C03", "C13"), "D": ("C04", "C09"), "E": ("C05", "C10"),
+                     "F": ("C06", "C12"), "G": ("C08", "C15"), "H": ("C11", "C17"), "I": ("C16", "C19"), "J": ("C18", "C20")}
+            prop = pairs[wt[-1]][0 if int(k) <= 2 else 1]
         meta_path = os.path.join(out, "meta.json")
         old = json.load(open(meta_path)) if os.path.exists(meta_path) else {}
         meta = {
